@@ -339,7 +339,7 @@ Proof.
   - destruct Hc as [[Hne Hdg] [Hv Hu]]. cbn [fst snd] in *.
     destruct (unit_letter u) as [x|] eqn:E; [|congruence].
     destruct (unit_letter_facts _ _ E) as (Hud & _ & Hun & Hx).
-    cbn [render_comps comps_value] in *. rewrite E in Hb.
+    cbn [render_comps comps_value] in *. rewrite E in Hb. rewrite E.
     assert (Hcv : 0 <= comps_value l).
     { clear -Hl. induction Hl as [|[ds' u'] l' [[_ Hd'] _] _ IH']; cbn; [lia|].
       pose proof (digits_val_lower ds' Hd' 0 ltac:(lia)). unfold dval.
@@ -357,11 +357,8 @@ Proof.
     assert (2 ^ 62 = 4611686018427387904) as E62 by reflexivity.
     assert (2 ^ 63 = 9223372036854775808) as E63 by reflexivity.
     assert (2 ^ 40 = 1099511627776) as E40 by reflexivity.
-    assert (dval (c :: r) * x <= 2 ^ 63 / x * x) as Q.
-    { apply Z.mul_le_mono_nonneg_r; [lia|]. apply Z.div_le_lower_bound; [lia|]. nia. }
-    destruct (Z.gtb_spec (dval (c :: r)) (2 ^ 63 / x)).
-    { exfalso. assert (2 ^ 63 / x >= 2 ^ 63 / hour_ns) by (apply Z.le_ge, Z.div_le_compat_l; lia).
-      assert (2 ^ 63 / hour_ns = 2562047) by (rewrite E63, EH; reflexivity). lia. }
+    assert (dval (c :: r) <= 2 ^ 63 / x) as Q by (apply Z.div_le_lower_bound; nia).
+    destruct (Z.gtb_spec (dval (c :: r)) (2 ^ 63 / x)); [lia|].
     destruct (Z.gtb_spec (d + dval (c :: r) * x) (2 ^ 63)); [nia|].
     rewrite IH; [f_equal; lia|cbn in Hf; lia|nia|lia].
 Qed.
@@ -378,11 +375,10 @@ Proof.
   rewrite (dur_pad _ Hc Hn a b Ha Hb), (dur_no_d _ Hc).
   assert (render_comps l <> [48]) as H0.
   { destruct l as [|[ds u] l]; [congruence|]. cbn. inversion Hl as [|? ? [[Hd _] _] _]; subst. cbn in Hd.
-    destruct ds as [|c [|c2 r]]; [congruence| |]; cbn; try discriminate.
-    destruct l as [|[? ?] ?]; cbn; discriminate. }
+    destruct ds as [|c [|c2 r]]; [congruence| |]; cbn; discriminate. }
   rewrite (go_parse_duration_dur _ Hc Hn H0).
   rewrite pd_loop_comps; [reflexivity|exact Hl| |lia|lia].
-  clear -Hl. induction Hl as [|[ds u] l [[Hd _] _] _ IH]; cbn; [lia|]. rewrite app_length. cbn.
+  clear -Hl. induction Hl as [|[ds u] l [[Hd _] _] _ IH]; cbn; [lia|]. rewrite app_length. cbn. cbn [fst] in Hd.
   destruct ds; [congruence|cbn; lia].
 Qed.
 
@@ -436,12 +432,11 @@ Proof.
     destruct (render_comps (x :: l')) as [|c0 r0] eqn:ER; [congruence|]. rewrite <- ER.
     assert (render_comps (x :: l') <> [48]) as H0.
     { destruct x as [ds u]. cbn. inversion Hl as [|? ? [[Hd _] _] _]; subst. cbn in Hd.
-      destruct ds as [|c1 [|c2 r1]]; [congruence| |]; cbn; try discriminate.
-      destruct l' as [|[? ?] ?]; cbn; discriminate. }
+      destruct ds as [|c1 [|c2 r1]]; [congruence| |]; cbn; discriminate. }
     rewrite (go_parse_duration_dur _ Hc Hn H0).
     rewrite pd_loop_comps; [|exact Hl| |lia|lia].
     + f_equal. rewrite Z.add_0_l. apply sint_small; [lia|]. change (2 ^ (64 - 1)) with 9223372036854775808. lia.
-    + clear -Hl. induction Hl as [|[ds u] l [[Hd _] _] _ IH]; cbn; [lia|]. rewrite app_length. cbn.
+    + clear -Hl. induction Hl as [|[ds u] l [[Hd _] _] _ IH]; cbn; [lia|]. rewrite app_length. cbn. cbn [fst] in Hd.
       destruct ds; [congruence|cbn; lia].
 Qed.
 
